@@ -105,6 +105,27 @@ theorem toascii_result_codes (s : List Nat) (cap : Nat) :
   · right; left; rfl
   · exact scan_rc _ _ _
 
+/-- NOT PROVED (kept visible): "UV_EINVAL exactly when it does not fit" as monotonicity in the
+    destination size — if the conversion succeeds with `n` bytes in a destination of `cap'` bytes,
+    then every destination of at least `n` bytes gives the same bytes and `n`, and every smaller one
+    gives UV_EINVAL.  What is proved above: success ⇒ the NUL is inside and `rc` = bytes stored;
+    nothing is ever stored at or past `de`.  Missing: a two-run simulation argument
+    (`out_small = out_large.take cap`) through all loops.  The correspondence check runs every
+    destination size 0..needed+2 on model and implementation, and the Python monitor demands
+    UV_EINVAL for every size below the reference length + 1. -/
+def toascii_fits_iff_statement : Prop :=
+  ∀ (s : List Nat) (cap cap' : Nat), 0 ≤ (toascii s cap').1 →
+    (((toascii s cap').1 ≤ (cap : Int) → (toascii s cap).1 = (toascii s cap').1 ∧
+        (toascii s cap).2.out = (toascii s cap').2.out) ∧
+     ((cap : Int) < (toascii s cap').1 → (toascii s cap).1 = UV_EINVAL))
+
+/-- NOT PROVED (kept visible): the outer Punycode loop never runs out of the model's fuel
+    (`cps.length + 1` passes; every pass encodes at least one code point when there are fewer than
+    2^32 of them).  `FUEL_OUT` is a distinct result that the C code cannot produce, so any such case
+    would show up as a model ≠ implementation difference; none occurred. -/
+def toascii_fuel_suffices_statement : Prop :=
+  ∀ (s : List Nat) (cap : Nat), s.length < 4294967296 → (toascii s cap).1 ≠ FUEL_OUT
+
 /-- a destination too small for even the terminator is UV_EINVAL -/
 example : (toascii [0x61] 1).1 = UV_EINVAL ∧ (toascii [0x61] 2) = (2, { out := [0x61, 0], cap := 2 }) := by
   constructor <;> simp [toascii, scan, decode1, isDot, label, decodeAll, countLoop, writeAscii, Buf.put,
